@@ -495,3 +495,6 @@ def replay(ctx, data):
         print("model     :", dec(ctx.driver().ask("path src %s %s" % (enc(posixpath.normpath(d)), enc(u)))))
         return False
     return False
+
+
+DRIVER_OPS = ["path"]   # per-area driver executable(s) this check talks to (built before any worker is forked)
